@@ -14,11 +14,13 @@ import (
 	"encoding/json"
 	"flag"
 	"fmt"
+	"go/ast"
 	"go/types"
 	"os"
 	"os/exec"
 	"path/filepath"
 	"regexp"
+	"sort"
 	"strconv"
 	"strings"
 
@@ -28,6 +30,9 @@ import (
 type gen struct {
 	pkg     *types.Package
 	imports map[string]string // path -> name
+	built   map[string]bool   // slices of structs already constructed
+	small   bool              // integers are kept small
+	idx     bool              // integers are mostly small indices
 	b       strings.Builder
 }
 
@@ -45,6 +50,11 @@ func (g *gen) pf(format string, a ...interface{}) { fmt.Fprintf(&g.b, format, a.
 
 // Go expression producing a random value of type t (representable kinds only)
 func (g *gen) value(t types.Type) string {
+	if tr.KindOf(t) == tr.KList { // (the elements of a list are not indices)
+		saved := g.idx
+		g.idx = false
+		defer func() { g.idx = saved }()
+	}
 	switch tr.KindOf(t) {
 	case tr.KZ:
 		b := t.Underlying().(*types.Basic)
@@ -57,15 +67,36 @@ func (g *gen) value(t types.Type) string {
 		case types.Int32, types.Uint32:
 			bits = 32
 		}
+		if g.small { // the function allocates (make): lengths beyond a few hundred would exhaust the memory
+			return fmt.Sprintf("%s(gfR.smallInt(%v))", g.ty(t), signed)
+		}
+		if g.idx { // the function has lists among its inputs: most integers are plausible indices
+			return fmt.Sprintf("%s(gfR.index(%d, %v))", g.ty(t), bits, signed)
+		}
 		return fmt.Sprintf("%s(gfR.integer(%d, %v))", g.ty(t), bits, signed)
 	case tr.KBool:
 		return fmt.Sprintf("%s(gfR.next()&1 == 1)", g.ty(t))
+	case tr.KErr:
+		return "gfR.err()"
+	case tr.KTok:
+		return "gfR.tok()"
 	case tr.KList:
 		if b, ok := t.Underlying().(*types.Basic); ok && b.Kind() == types.String {
 			return fmt.Sprintf("%s(gfR.bytes())", g.ty(t))
 		}
+		if n, ok := t.(*types.Named); ok && n.Obj().Pkg() != nil && n.Obj().Pkg().Path() == "bytes" && n.Obj().Name() == "Buffer" {
+			g.imports["bytes"] = "bytes"
+			return "*bytes.NewBuffer(gfR.bytes())"
+		}
+		if a, ok := t.Underlying().(*types.Array); ok {
+			return fmt.Sprintf("func() %s { var a %s; for i := range a { a[i] = %s }; return a }()", g.ty(t), g.ty(t), g.value(a.Elem()))
+		}
 		el := t.Underlying().(*types.Slice).Elem()
-		return fmt.Sprintf("func() %s { s := make(%s, gfR.length()); sorted := gfR.next()%%5 < 2; for i := range s { s[i] = %s }; if sorted { sort.Slice(s, func(i, j int) bool { return s[i] < s[j] }) }; return s }()",
+		if tr.KindOf(el) == tr.KTok {
+			return fmt.Sprintf("func() %s { n := gfR.length(); s := make(%s, n, n+int(gfR.next()%%3)); for i := range s { s[i] = gfR.tok() }; return s }()", g.ty(t), g.ty(t))
+		}
+		// (sometimes with spare capacity: code that reslices beyond len behaves differently then)
+		return fmt.Sprintf("func() %s { n := gfR.length(); s := make(%s, n, n+int(gfR.next()%%3)); sorted := gfR.next()%%5 < 2; for i := range s { s[i] = %s }; if sorted { sort.Slice(s, func(i, j int) bool { return s[i] < s[j] }) }; return s }()",
 			g.ty(t), g.ty(t), g.value(el))
 	}
 	return ""
@@ -83,6 +114,10 @@ func deref(t types.Type) (types.Type, bool) {
 func (g *gen) setPath(v string, root types.Type, in *tr.Input) (read string, err error) {
 	cur, curT := v, root
 	for i, name := range in.Path {
+		if name == "[]" { // the field in.Path[i+1] of the elements of this slice of structs
+			g.buildStructSlice(cur, curT)
+			return fmt.Sprintf("gfField(%s, %q)", cur, in.Path[i+1]), nil
+		}
 		obj, index, _ := types.LookupFieldOrMethod(curT, true, g.pkg, name)
 		if obj == nil {
 			return "", fmt.Errorf("field %s not found", name)
@@ -109,11 +144,51 @@ func (g *gen) setPath(v string, root types.Type, in *tr.Input) (read string, err
 		}
 	}
 	if in.LenOnly {
-		g.pf("\t%s = make(%s, gfR.length())\n", cur, g.ty(curT))
+		if _, isSt := structSliceElem(curT); isSt {
+			g.buildStructSlice(cur, curT)
+		} else {
+			g.pf("\t%s = make(%s, gfR.length())\n", cur, g.ty(curT))
+		}
 		return "len(" + cur + ")", nil
 	}
 	g.pf("\t%s = %s\n", cur, g.value(curT))
+	if tr.KindOf(curT) == tr.KList && strings.HasSuffix(g.ty(curT), "bytes.Buffer") {
+		return cur + ".Bytes()", nil
+	}
 	return cur, nil
+}
+
+func structSliceElem(t types.Type) (*types.Struct, bool) {
+	sl, ok := t.Underlying().(*types.Slice)
+	if !ok {
+		return nil, false
+	}
+	el, _ := deref(sl.Elem())
+	st, ok := el.Underlying().(*types.Struct)
+	return st, ok
+}
+
+// a slice of (pointers to) structs with distinct elements, every integer / bool field random
+func (g *gen) buildStructSlice(cur string, t types.Type) {
+	if g.built[cur] {
+		return
+	}
+	g.built[cur] = true
+	sl := t.Underlying().(*types.Slice)
+	el, isPtr := deref(sl.Elem())
+	st := el.Underlying().(*types.Struct)
+	g.pf("\t%s = make(%s, gfR.length())\n\tfor i := range %s {\n\t\tvar e %s\n", cur, g.ty(t), cur, g.ty(el))
+	for i := 0; i < st.NumFields(); i++ {
+		f := st.Field(i)
+		if k := tr.KindOf(f.Type()); (k == tr.KZ || k == tr.KBool) && (f.Exported() || f.Pkg() == g.pkg) {
+			g.pf("\t\te.%s = %s\n", f.Name(), g.value(f.Type()))
+		}
+	}
+	if isPtr {
+		g.pf("\t\t%s[i] = &e\n\t}\n", cur)
+	} else {
+		g.pf("\t\t%s[i] = e\n\t}\n", cur)
+	}
 }
 
 func main() {
@@ -146,6 +221,26 @@ func main() {
 	}
 	must(os.WriteFile(filepath.Join(work, "Gen.v"), []byte(T.File()), 0o644))
 
+	// which functions allocate (make), directly or through a callee
+	allocates := map[*tr.Func]bool{}
+	for changed := true; changed; {
+		changed = false
+		for _, f := range fns {
+			if allocates[f] {
+				continue
+			}
+			hit := strings.Contains(f.Text, "go_make")
+			for _, c := range fns {
+				if allocates[c] && strings.Contains(f.Text, c.Coq+" ") {
+					hit = true
+				}
+			}
+			if hit {
+				allocates[f], changed = true, true
+			}
+		}
+	}
+
 	// ---- the Go side
 	g := &gen{pkg: p.Types, imports: map[string]string{}}
 	skipped := map[int]string{}
@@ -171,7 +266,19 @@ func main() {
 			skipped[k] = "oracle"
 			continue
 		}
+		if f.Bind != "" {
+			skipped[k] = "other package"
+			continue
+		}
 		g.b.Reset()
+		g.built = map[string]bool{}
+		g.small = allocates[f]
+		g.idx = false
+		for _, in := range f.Inputs {
+			if in.Kind == tr.KList {
+				g.idx = true
+			}
+		}
 		g.pf("func gfCase%d(w *bufio.Writer) {\n", k)
 		var args []string // actual arguments of the Go call
 		reads := map[*tr.Input]string{}
@@ -186,6 +293,21 @@ func main() {
 				for _, in := range f.Inputs {
 					if in.Param == i {
 						reads[in] = v
+					}
+				}
+				args = append(args, v)
+			case func() bool { _, ok := structSliceElem(pv.Type()); return ok }():
+				g.pf("\tvar %s %s\n", v, g.ty(pv.Type()))
+				g.buildStructSlice(v, pv.Type())
+				for _, in := range f.Inputs {
+					if in.Param == i {
+						if in.LenOnly {
+							reads[in] = "len(" + v + ")"
+						} else if len(in.Path) == 2 && in.Path[0] == "[]" {
+							reads[in] = fmt.Sprintf("gfField(%s, %q)", v, in.Path[1])
+						} else {
+							bad = fmt.Errorf("cannot build parameter %s", pv.Name())
+						}
 					}
 				}
 				args = append(args, v)
@@ -251,14 +373,39 @@ func main() {
 		g.pf("\tfmt.Fprintf(w, \"%d\\t%%s\\t%%s\\n\", strings.Join(in, \" \"), res)\n}\n\n", k)
 		body.WriteString(g.b.String())
 	}
+	// the error variables of the table, as Go expressions (those the test can name)
+	var errCases, errVals strings.Builder
+	var enames []string
+	for n := range T.Errs {
+		enames = append(enames, n)
+	}
+	sort.Strings(enames)
+	for _, n := range enames {
+		e := T.Errs[n]
+		q := e.Var
+		if e.Pkg != p.Types.Path() {
+			if !ast.IsExported(e.Var) {
+				continue
+			}
+			q = filepath.Base(e.Pkg) + "." + e.Var
+			g.imports[e.Pkg] = filepath.Base(e.Pkg)
+			body.WriteString("var _ = " + q + "\n")
+		}
+		fmt.Fprintf(&errCases, "\tcase %s:\n\t\treturn \"%d\"\n", q, e.Code)
+		fmt.Fprintf(&errVals, "%s, ", q)
+	}
+	support := strings.Replace(goSupport, "SEED", strconv.FormatInt(*seed, 10), 1)
+	support = strings.Replace(support, "/*ERRCASES*/", errCases.String(), 1)
+	support = strings.Replace(support, "/*ERRVALS*/", errVals.String(), 1)
 	var src strings.Builder
-	fmt.Fprintf(&src, "package %s\n\nimport (\n\t\"bufio\"\n\t\"fmt\"\n\t\"os\"\n\t\"reflect\"\n\t\"sort\"\n\t\"strings\"\n\t\"testing\"\n\t\"time\"\n", p.Types.Name())
+	fmt.Fprintf(&src, "package %s\n\nimport (\n\t\"bufio\"\n\t\"errors\"\n\t\"fmt\"\n\t\"os\"\n\t\"reflect\"\n\t\"sort\"\n\t\"strings\"\n\t\"testing\"\n\t\"time\"\n", p.Types.Name())
+	std := map[string]bool{"bufio": true, "errors": true, "fmt": true, "os": true, "reflect": true, "sort": true, "strings": true, "testing": true, "time": true}
 	for path, name := range g.imports {
-		if strings.Contains(body.String(), name+".") { // (a skipped function may have asked for it)
+		if strings.Contains(body.String(), name+".") && !std[path] { // (a skipped function may have asked for it)
 			fmt.Fprintf(&src, "\t%s %q\n", name, path)
 		}
 	}
-	src.WriteString(")\n\n" + strings.Replace(goSupport, "SEED", strconv.FormatInt(*seed, 10), 1) + body.String())
+	src.WriteString(")\n\n" + support + body.String())
 	src.WriteString("func TestGofuncValidate(t *testing.T) {\n\tf, err := os.Create(os.Getenv(\"GOFUNC_OUT\"))\n\tif err != nil {\n\t\tt.Fatal(err)\n\t}\n\tw := bufio.NewWriter(f)\n")
 	for k := range fns {
 		if _, skip := skipped[k]; !skip {
@@ -330,7 +477,7 @@ func main() {
 		}
 		eq := ""
 		for i, kd := range f.Results {
-			e := map[tr.Kind]string{tr.KZ: "Z.eqb", tr.KBool: "Bool.eqb", tr.KList: "list_eqb"}[kd]
+			e := map[tr.Kind]string{tr.KZ: "Z.eqb", tr.KErr: "Z.eqb", tr.KTok: "Z.eqb", tr.KBool: "Bool.eqb", tr.KList: "list_eqb"}[kd]
 			if i == 0 {
 				eq = e
 			} else {
@@ -512,6 +659,21 @@ func (r *gfRand) integer(bits int, signed bool) uint64 {
 	return v
 }
 
+func (r *gfRand) index(bits int, signed bool) uint64 {
+	if r.next()%10 < 6 {
+		return r.next() % 6
+	}
+	return r.integer(bits, signed)
+}
+
+func (r *gfRand) smallInt(signed bool) uint64 {
+	v := r.next() % 300
+	if signed && r.next()%8 == 0 {
+		v = -(r.next() % 4)
+	}
+	return v
+}
+
 func (r *gfRand) length() int {
 	switch c := r.next() % 10; {
 	case c < 1:
@@ -532,8 +694,58 @@ func (r *gfRand) bytes() []byte {
 	return b
 }
 
+// an error value as its code (see the table in the generated file): 0 = nil, 1 = made on the spot
+func gfErr(e error) string {
+	switch e {
+	case nil:
+		return "0"
+/*ERRCASES*/	}
+	return "1"
+}
+
+func (r *gfRand) err() error {
+	es := []error{nil, nil, errors.New("some error"), /*ERRVALS*/}
+	return es[r.next()%uint64(len(es))]
+}
+
+// a value of type interface{}: nil or a boxed positive int (its token)
+func (r *gfRand) tok() interface{} {
+	if r.next()%4 == 0 {
+		return nil
+	}
+	return int(r.next()%1000) + 1
+}
+
+// the field called name of the elements of a slice of (pointers to) structs
+func gfField(s interface{}, name string) []interface{} {
+	x := reflect.ValueOf(s)
+	out := make([]interface{}, x.Len())
+	for i := range out {
+		e := x.Index(i)
+		if e.Kind() == reflect.Ptr {
+			e = e.Elem()
+		}
+		f := e.FieldByName(name)
+		switch f.Kind() {
+		case reflect.Bool:
+			out[i] = f.Bool()
+		case reflect.Int, reflect.Int8, reflect.Int16, reflect.Int32, reflect.Int64:
+			out[i] = f.Int()
+		default:
+			out[i] = f.Uint()
+		}
+	}
+	return out
+}
+
 // a value as a Gallina term
 func gfCoq(v interface{}) string {
+	if v == nil {
+		return "0"
+	}
+	if e, ok := v.(error); ok {
+		return gfErr(e)
+	}
 	x := reflect.ValueOf(v)
 	switch x.Kind() {
 	case reflect.Bool:
@@ -550,7 +762,7 @@ func gfCoq(v interface{}) string {
 		return fmt.Sprintf("%d", x.Uint())
 	case reflect.String:
 		return gfCoq([]byte(x.String()))
-	case reflect.Slice:
+	case reflect.Slice, reflect.Array:
 		var p []string
 		for i := 0; i < x.Len(); i++ {
 			p = append(p, strings.Trim(gfCoq(x.Index(i).Interface()), "()"))
